@@ -1,4 +1,4 @@
-// sched.h — cooperative scheduler for the thread-level correspondence checks (C03 C06 C07 C11).
+// vsched.h — cooperative scheduler for the thread-level correspondence checks (C03 C06 C07 C11).
 //
 // eventpp is instantiated with a Threading policy whose Mutex, Atomic<T> and ConditionVariable
 // call into this scheduler.  Real std::threads are used, but exactly ONE runs at a time; a
@@ -13,8 +13,8 @@
 //
 // The Coq models (coq/*Conc*.v) have exactly this step granularity, so a schedule is replayed
 // step for step on model and implementation and the action sequences are compared.
-#ifndef VERIF_SCHED_H
-#define VERIF_SCHED_H
+#ifndef VERIF_VSCHED_H
+#define VERIF_VSCHED_H
 
 #include <condition_variable>
 #include <cstdio>
